@@ -1398,6 +1398,20 @@ class NF:
                         env.vars[st.target.id] = self.ev(st.value, env)
                     elif isinstance(st, (ast.Import, ast.ImportFrom)):
                         self._local_import(st, env)
+                    elif isinstance(st, ast.Expr) and isinstance(st.value, ast.Call):
+                        # a statement run for its effect: a local list that grows is the list it grows into; anything else the
+                        # evaluator does not read is not silently dropped
+                        c_ = st.value
+                        if isinstance(c_.func, ast.Attribute) and isinstance(c_.func.value, ast.Name) and c_.func.value.id in env.vars and c_.func.attr in ("extend", "append") \
+                                and len(c_.args) == 1 and not c_.keywords and not isinstance(c_.args[0], ast.Starred):
+                            add = c_.args[0] if c_.func.attr == "extend" else ast.List(elts=[c_.args[0]], ctx=ast.Load())
+                            add = ast.List(elts=[ast.Starred(value=add, ctx=ast.Load())], ctx=ast.Load()) if c_.func.attr == "extend" else add
+                            env.vars[c_.func.value.id] = self.ev(ast.List(elts=[ast.Starred(value=ast.Name(id=c_.func.value.id, ctx=ast.Load()), ctx=ast.Load()),
+                                                                                 *add.elts], ctx=ast.Load()), env)
+                        elif u(c_.func).split(".")[-1] in ("warn", "debug", "info", "warning", "print"):
+                            pass
+                        else:
+                            raise Opaque(f"{cls.qualname}.{name}: statement `{u(st)[:60]}` is run for its effect")
             out.append((guards, outcome, term, node, env))
         return out
 
